@@ -10,7 +10,7 @@
 // command  {"op":"consts"} -> one {"ev":"consts"} event per node with the min_/max_ accessor values,
 //      and one {"ev":"caps"} event with the conversion existence matrix.
 
-use palette::convert::{FromColorUnclamped, TryFromColor};
+use palette::convert::{FromColorMut, FromColorUnclamped, FromColorUnclampedMut, IntoColor, IntoColorMut, IntoColorUnclamped, IntoColorUnclampedMut, TryFromColor, TryIntoColor};
 use palette::white_point::D65;
 use palette::{Alpha, Clamp, ClampAssign, FromColor, IsWithinBounds};
 use palette::{Hsl, Hsluv, Hsv, Hwb, Lab, Lch, Lchuv, LinSrgb, Luv, Okhsl, Okhsv, Okhwb, Oklab, Oklch, Srgb, Xyz, Yxy};
@@ -249,6 +249,13 @@ where
                     Ok(b) => Out { v: b.arr(), ok: true },
                     Err(e) => Out { v: e.color().arr(), ok: false },
                 },
+                // the Into* mirror images of the three conversions
+                b'U' => Out { v: <A as IntoColorUnclamped<B>>::into_color_unclamped(a).arr(), ok: true },
+                b'C' => Out { v: <A as IntoColor<B>>::into_color(a).arr(), ok: true },
+                b'T' => match <A as TryIntoColor<B>>::try_into_color(a) {
+                    Ok(b) => Out { v: b.arr(), ok: true },
+                    Err(e) => Out { v: e.color().arr(), ok: false },
+                },
                 _ => {
                     // with transparency attached
                     let aa: Alpha<A, T> = Alpha { color: a, alpha: v[3] };
@@ -266,7 +273,7 @@ impl<A, B> No for &P<A, B> {}
 
 // the clamping conversion of whole containers (Vec<A> -> Vec<B>, Box<[A]> -> Box<[B]>; they exist for colours of the
 // same array layout): element 0 of a two-element container, as <<vec form, boxed slice form>>
-pub type ContFn = fn(&V) -> (V, V);
+pub type ContFn = fn(&V) -> [V; 6];
 pub struct PC<A, B>(PhantomData<(A, B)>);
 pub trait YesC { fn get(&self) -> Option<ContFn>; }
 pub trait NoC { fn get(&self) -> Option<ContFn> { None } }
@@ -276,17 +283,33 @@ where
     B: Node,
     Vec<B>: FromColor<Vec<A>>,
     Box<[B]>: FromColor<Box<[A]>>,
+    B: FromColorMut<A> + FromColorUnclampedMut<A>,
+    A: FromColorMut<B> + FromColorUnclampedMut<B>,
+    [B]: FromColorMut<[A]>,
+    [A]: FromColorMut<[B]>,
 {
     fn get(&self) -> Option<ContFn> {
-        fn f<A: Node, B: Node>(v: &V) -> (V, V)
+        /// <<Vec::from_color, Box<[_]>::from_color, into_color_mut on a value, into_color_unclamped_mut on a value,
+        ///   into_color_mut on a slice, the value left behind when that guard is dropped>>: element 0
+        fn f<A: Node, B: Node>(v: &V) -> [V; 6]
         where
             Vec<B>: FromColor<Vec<A>>,
             Box<[B]>: FromColor<Box<[A]>>,
+            B: FromColorMut<A> + FromColorUnclampedMut<A>,
+            A: FromColorMut<B> + FromColorUnclampedMut<B>,
+            [B]: FromColorMut<[A]>,
+            [A]: FromColorMut<[B]>,
         {
             let other = A::of(&[0.25 as T, 0.25 as T, 0.25 as T, 0.0]);
             let vb: Vec<B> = Vec::<B>::from_color(vec![A::of(v), other]);
             let bb: Box<[B]> = <Box<[B]>>::from_color(vec![A::of(v), other].into_boxed_slice());
-            (vb[0].arr(), bb[0].arr())
+            let mut x = A::of(v);
+            let m1 = { let g = <A as IntoColorMut<B>>::into_color_mut(&mut x); (*g).arr() };
+            let mut y = A::of(v);
+            let m2 = { let g = <A as IntoColorUnclampedMut<B>>::into_color_unclamped_mut(&mut y); (*g).arr() };
+            let mut z = [A::of(v), other];
+            let m3 = { let g = <[A] as IntoColorMut<[B]>>::into_color_mut(&mut z[..]); g[0].arr() };
+            [vb[0].arr(), bb[0].arr(), m1, m2, m3, y.arr()]
         }
         Some(f::<A, B>)
     }
@@ -299,6 +322,7 @@ pub struct NodeInfo {
     pub bounds: fn() -> Vec<(Option<T>, Option<T>)>,
     pub bounds_op: fn(&V, bool) -> Value,
     pub user_op: fn(&V) -> Value,
+    pub alpha_bounds: fn() -> (T, T),
 }
 
 fn bounds_op<A: Node>(v: &V, alpha: bool) -> Value
@@ -347,7 +371,7 @@ macro_rules! rowc {
 macro_rules! universe {
     ([$($A:ty),*]; $list:tt) => {
         pub fn nodes() -> Vec<NodeInfo> {
-            vec![ $( NodeInfo { name: <$A as Node>::NAME, n: <$A as Node>::N, bounds: <$A as Node>::bounds, bounds_op: bounds_op::<$A>, user_op: user_op::<$A> } ),* ]
+            vec![ $( NodeInfo { name: <$A as Node>::NAME, n: <$A as Node>::N, bounds: <$A as Node>::bounds, bounds_op: bounds_op::<$A>, user_op: user_op::<$A>, alpha_bounds: || (Alpha::<$A, T>::min_alpha(), Alpha::<$A, T>::max_alpha()) } ),* ]
         }
         pub fn table() -> Vec<Vec<Option<ConvFn>>> { vec![ $( row!($A; $list) ),* ] }
         pub fn table_cont() -> Vec<Vec<Option<ContFn>>> { vec![ $( rowc!($A; $list) ),* ] }
@@ -360,7 +384,7 @@ universe!([NXyz, NYxy, NLab, NLch, NLuv, NLchuv, NHsluv, NOklab, NOklch, NOkhsl,
 fn lohi(n: &NodeInfo, alpha: bool) -> (Value, Value) {
     let mut lo: Vec<Value> = (n.bounds)().iter().map(|(lo, _)| match lo { Some(x) => x.ex(), None => json!([]) }).collect();
     let mut hi: Vec<Value> = (n.bounds)().iter().map(|(_, hi)| match hi { Some(x) => x.ex(), None => json!([]) }).collect();
-    if alpha { lo.push((0.0 as T).ex()); hi.push((1.0 as T).ex()); }
+    if alpha { let (a0, a1) = (n.alpha_bounds)(); lo.push(a0.ex()); hi.push(a1.ex()); }
     (Value::Array(lo), Value::Array(hi))
 }
 
@@ -501,14 +525,19 @@ pub fn convmain() {
                     None => { e["missing"] = json!(1); }
                     Some(f) => {
                         let n = nodes[to].n;
-                        match catch(|| (f(&v, b'u'), f(&v, b'c'), f(&v, b't'))) {
-                            Ok((u, cl, t)) => {
+                        match catch(|| (f(&v, b'u'), f(&v, b'c'), f(&v, b't'), f(&v, b'U'), f(&v, b'C'), f(&v, b'T'))) {
+                            Ok((u, cl, t, iu, ic, it)) => {
+                                e["iu"] = enc(&iu.v, n, false); e["ic"] = enc(&ic.v, n, false); e["itv"] = enc(&it.v, n, false);
+                                e["it_ok"] = json!(it.ok as u8);
                                 e["u"] = enc(&u.v, n, false); e["c"] = enc(&cl.v, n, false); e["tv"] = enc(&t.v, n, false);
                                 e["t_ok"] = json!(t.ok as u8); e["panic"] = json!(0);
                                 e["fin"] = json!(fin(&u.v, n, false) as u8);
                                 if let Some(g) = table_cont[from][to] {
                                     match catch(|| g(&v)) {
-                                        Ok((cv, cb)) => { e["cvec"] = enc(&cv, n, false); e["cbox"] = enc(&cb, n, false); }
+                                        Ok(r) => {
+                                            e["cvec"] = enc(&r[0], n, false); e["cbox"] = enc(&r[1], n, false);
+                                            e["cmut"] = enc(&r[2], n, false); e["umut"] = enc(&r[3], n, false); e["cmuts"] = enc(&r[4], n, false);
+                                        }
                                         Err(_) => { e["panic"] = json!(1); }
                                     }
                                 }
